@@ -25,7 +25,7 @@ PLAN = {
     "C03": dict(families=[("join", 36, 360)], oracle=lambda h: T.oracle_join(h), slices=["snapj"], ref="§7 C03"),
     "C07": dict(families=[("promo", 30, 300)], oracle=lambda h: T.oracle_promo(h), slices=["promo"], ref="§7 C07"),
     "C06": dict(families=[("asset", 36, 360)], oracle=lambda h: T.oracle_assets(h), slices=["asset"], ref="§7 C06"),
-    "C08": dict(families=[("fault", 96, 768)], oracle=lambda h: T.oracle_fault(h), slices=["fault"], ref="§7 C08"),
+    "C08": dict(families=[("fault", 136, 816)], oracle=lambda h: T.oracle_fault(h), slices=["fault"], ref="§7 C08"),
 }
 
 # properties whose unbounded theorems cover only part of the statement (what is missing is decided by the
@@ -93,6 +93,10 @@ def check(prop_id, tier, seed, replay=None):
         count = (th if tier == "thorough" else q) * mult
         # split over a few processes: sessions use real UDP sockets and are independent
         parts = max(1, min(8, count // 10))
+        if family == "fault":
+            # the fault family enumerates its cases by history index (case x direction x number of clients = 68 combinations):
+            # one process walks them in order so that every combination is reached
+            parts = 1
         per = (count + parts - 1) // parts
         with concurrent.futures.ThreadPoolExecutor(max_workers=parts) as ex:
             futs = [ex.submit(run_family, family, seed * 100 + k, per, tier) for k in range(parts)]
